@@ -396,6 +396,27 @@ def run(R):
             opts.append("--flat")
         if "plain" in st:
             opts.append("--no-gzip")
+        # History: for one non-sharded job in four the destination already holds an OLDER generation of the
+        # dataset -- another stack of the same geometry, converted with the other stored form (plain <-> gzip)
+        # and the same layout.  The conversion that is checked must fully replace it.
+        if valid and not j["sharded"] and idx % 4 == 0:
+            pre_dirs = []
+            for di, st in enumerate(stacks):
+                pst = (st ^ 1) if np.issubdtype(st.dtype, np.integer) else (st + 1).astype(st.dtype)
+                pdir = os.path.join(R.tmp, f"in{idx}_pre", os.path.basename(dirs[di]))
+                write_slices(pdir, pst, fmt, np, j["slice_names"][di], as8_sets[di] if as8_sets else ())
+                pre_dirs.append(pdir)
+            pre_opts = [o for o in opts if o != "--no-gzip"] + ([] if "--no-gzip" in opts else ["--no-gzip"])
+            pre_code = rng.choice([c2 for c2 in ALL_CODES if AX[c2[0]] == AX[code[0]] and AX[c2[1]] == AX[code[1]]])
+
+            def pre():
+                with contextlib.redirect_stdout(io.StringIO()), contextlib.redirect_stderr(io.StringIO()):
+                    return slices_to_precomputed.main(["slices-to-precomputed"] + pre_dirs +
+                                                      [dest, "--input-orientation", pre_code] + pre_opts)
+            pre_out = outcome_of(pre)
+            R.count("history:older-generation-in-other-form:" + ("plain-then-gzip" if "--no-gzip" in pre_opts
+                                                                  else "gzip-then-plain") + ":" + pre_out[0])
+            j["history"] = "older generation (" + pre_code + (", plain" if "--no-gzip" in pre_opts else ", gzip") + ")"
         prepared.append((j, stacks, dirs, dest, nch, dt, out_dt, kchs, opts, (w, h, n)))
 
     reqs = []
@@ -474,6 +495,7 @@ def run(R):
                 impl = ["Refused"]
         case = {"code": j["case_code"], "size": size, "chunk": chunk, "layout": j["layout"],
                 "storage": j["storage"], "slices_vs_depth": j["rel"], "out_dtype": out_dt,
+                "history": j.get("history"),
                 "subprocess": j["sub"]}
         n_groups = -(-n // max(1, chunk[AX[code[2]]])) if code in ALL_CODES else 0
         R.case(case, nontrivial=n_groups >= 2 or code != "RAS")
